@@ -129,6 +129,21 @@ theorem c11_model_flags :
   · simp only [Auth.genCfg, e9, e10, e11, decide_true, Bool.and_self]
 
 
+/-- `authInterceptor` of the current tree REPLACES the internal identity header with the verified
+    user name (`r.Header.Set`): computed from the regenerated skeleton of the function. -/
+theorem c11_identity_flag : genCfg.identityReplaces = true := by
+  have e : Gen.skel_authInterceptor = Expected.skel_authInterceptor := rfl
+  exact decide_eq_true e
+
+/-- the reviewed shape of `authInterceptor`: token from the query, `AccessCheck`, then `Header.Set`
+    (no `Add`, no other header call), 401 otherwise -/
+theorem c11_identity_source_facts :
+    Expected.skel_authInterceptor =
+      ["call r.URL.Query().Get(\"token\")", "set token := r.URL.Query().Get(\"token\")", "if token != \"\" {",
+       "call s.tokens.AccessCheck(token)", "set username := s.tokens.AccessCheck(token)", "if username != \"\" {",
+       "call r.Header.Set(usernameHeaderKey, username)", "return true", "}", "}",
+       "call http.Error(w, \"Token is not valid\", http.StatusUnauthorized)", "return false"] := rfl
+
 /-- facts about the ASCII character functions and the regenerated source facts, in the form the
     generic lemmas take them -/
 theorem c11_user_facts : UserFacts Auth.genCfg env :=
@@ -184,31 +199,51 @@ theorem c11_rel_users (w : World) (sw : SWorld)
 
 /-! ## the entry points -/
 
+/-- **The caller's identity comes from the token only.**  The verified user name travels to the
+    permission / role interceptors and to the WebSocket upgrade in the request header
+    `user_name_in_token`; a client can send a header of that name itself.  For EVERY list `hdr` of
+    values the client sent under that key, every state, method, path and token, the three HTTP entry
+    points behave exactly as if the client had sent none: the client's values are never read. -/
+theorem c11_client_identity_header_ignored (w : World) (m : HMethod) (isGet : Bool) (path : List Char)
+    (tok : TokRef) (sub : WsSub) (hdr : List (List Char)) :
+    httpStreamH Auth.genCfg w m path tok hdr = httpStream Auth.genCfg w m path tok ∧
+    apiGateH Auth.genCfg w m isGet path tok hdr = apiGate Auth.genCfg w m isGet path tok ∧
+    wsUpgradeH Auth.genCfg w path tok sub hdr = wsUpgrade Auth.genCfg w path tok sub :=
+  ⟨httpStreamH_eq _ c11_identity_flag w m path tok hdr, apiGateH_eq _ c11_identity_flag w m isGet path tok hdr,
+   wsUpgradeH_eq _ c11_identity_flag w path tok sub hdr⟩
+
 /-- **HTTP-FLV, HLS playlist, HLS segment** (`/streams/...` without upgrade).  For every related
-    state, method (GET, CONNECT — whose path net/http does not clean —, other), URL path and
-    token: media of registry key `k` is served only if the token is a valid access token of a user
-    whose pull right as last saved covers `k` (for a segment: the stream it belongs to), and 401 /
-    403 are never answered to such a user asking for a resource his right covers. -/
+    state, method (GET, CONNECT — whose path net/http does not clean —, other), URL path, token and
+    client-sent identity header values: media of registry key `k` is served only if the token is a
+    valid access token of a user whose pull right as last saved covers `k` (for a segment: the
+    stream it belongs to), and 401 / 403 are never answered to such a user asking for a resource
+    his right covers. -/
 theorem c11_http_streams_ok (w : World) (sw : SWorld) (r : Rel Auth.genCfg env w sw)
-    (m : HMethod) (path : List Char) (tok : TokRef) :
-    judgeHttp env sw path tok (httpStream Auth.genCfg w m path tok).2 = .ok :=
-  httpStream_ok Auth.genCfg env rfl c11_model_flags.2.1 c11_model_flags.2.2.1 w sw r m path tok
+    (m : HMethod) (path : List Char) (tok : TokRef) (hdr : List (List Char)) :
+    judgeHttp env sw path tok (httpStreamH Auth.genCfg w m path tok hdr).2 = .ok := by
+  rw [httpStreamH_eq _ c11_identity_flag]
+  exact httpStream_ok Auth.genCfg env rfl c11_model_flags.2.1 c11_model_flags.2.2.1 w sw r m path tok
 
 /-- **Management API.**  A call reaches the router without a token only on the four open paths, with
     a token only if it is a valid access token and (the call is a read-only stream query or the
-    user is an administrator as last saved); administrators and stream queries are not refused. -/
+    user OF THE TOKEN is an administrator as last saved), whatever identity header the client
+    sent; administrators and stream queries are not refused. -/
 theorem c11_api_ok (w : World) (sw : SWorld) (r : Rel Auth.genCfg env w sw)
-    (m : HMethod) (isGet : Bool) (path : List Char) (tok : TokRef) :
-    judgeApi env sw isGet path tok (apiGate Auth.genCfg w m isGet path tok).2 = .ok :=
-  apiGate_ok Auth.genCfg env rfl c11_model_flags.2.2.2.2.2.2.2.2.2.1.symm
+    (m : HMethod) (isGet : Bool) (path : List Char) (tok : TokRef) (hdr : List (List Char)) :
+    judgeApi env sw isGet path tok (apiGateH Auth.genCfg w m isGet path tok hdr).2 = .ok := by
+  rw [apiGateH_eq _ c11_identity_flag]
+  exact apiGate_ok Auth.genCfg env rfl c11_model_flags.2.2.2.2.2.2.2.2.2.1.symm
     c11_model_flags.2.2.2.2.2.2.2.2.2.2.1.symm w sw r m isGet path tok
 
-/-- **WebSocket upgrade** (WS-FLV, and the hand-over to ws-rtsp / WSP): no connection without an
-    authenticated caller, FLV of `k` only with the pull right on `k`, no false denial. -/
+/-- **WebSocket upgrade** (WS-FLV, and the hand-over to ws-rtsp / WSP): a connection exists only for
+    an authenticated caller and is LABELLED WITH THE USER OF THE TOKEN (the sessions that run on it
+    decide by that label), FLV of `k` only with the pull right on `k`, no false denial — whatever
+    identity header the client sent. -/
 theorem c11_ws_upgrade_ok (w : World) (sw : SWorld) (r : Rel Auth.genCfg env w sw)
-    (path : List Char) (tok : TokRef) (sub : WsSub) :
-    judgeWs env sw path tok (wsUpgrade Auth.genCfg w path tok sub).2 = .ok :=
-  wsUpgrade_ok Auth.genCfg env rfl c11_model_flags.2.1 c11_model_flags.2.2.1 w sw r path tok sub
+    (path : List Char) (tok : TokRef) (sub : WsSub) (hdr : List (List Char)) :
+    judgeWs env sw path tok (wsUpgradeH Auth.genCfg w path tok sub hdr).2 = .ok := by
+  rw [wsUpgradeH_eq _ c11_identity_flag]
+  exact wsUpgrade_ok Auth.genCfg env rfl c11_model_flags.2.1 c11_model_flags.2.2.1 w sw r path tok sub
 
 /-- **RTSP, one request** (plain or over WebSocket).  In a session satisfying the invariants, for
     every request (any method, URL, credentials, SDP / transport outcome): an SDP is returned, a
@@ -547,6 +582,29 @@ theorem c11_wsp_play_after_narrowing_counterexample :
     (wspStep cfgWspNoRecheck w s .play .video true).2 = { code := 200, eff := .play "/a/b".toList } ∧
     judgeWsp Witness.env sw ctl none (wspStep cfgWspNoRecheck w s .play .video true).2 = .unsound ∧
     (wspStep cfgFixed w s .play .video true).2.code = 403 := by
+  decide
+
+/-- Seeded change C11c: with `authInterceptor` APPENDING the verified name (`r.Header.Add`), bob — a
+    plain user with a valid token and no rights — sends `user_name_in_token: root` himself: the role
+    interceptor lets him through the administrator gate, `/streams/a/b.flv` is served to him, and
+    the WebSocket he opens is labelled `root`.  The monitor (identity = user of the token) objects
+    to all three; with the reviewed code (`cfgFixed`) the same requests are refused. -/
+theorem c11_identity_header_spoof_counterexample :
+    let h : List AdminOp := [.save (user "bob" "" "") true,
+                             .save { name := "root".toList, password := .plain "pw".toList, admin := true, push := [], pull := [] } true]
+    let w := world cfgHeaderAdd h ["bob"] ["/a/b"]
+    let sw := sworld cfgHeaderAdd h ["bob"]
+    let spoof := ["root".toList]
+    let users := "/api/v1/users".toList
+    let flv := "/streams/a/b.flv".toList
+    (apiGateH cfgHeaderAdd w .get true users (some 0) spoof).2 = .pass "root".toList ∧
+    judgeApi Witness.env sw true users (some 0) (.pass "bob".toList) = .unsound ∧
+    (httpStreamH cfgHeaderAdd w .get flv (some 0) spoof).2 = .serve .flv "/a/b".toList ∧
+    judgeHttp Witness.env sw flv (some 0) (httpStreamH cfgHeaderAdd w .get flv (some 0) spoof).2 = .unsound ∧
+    (wsUpgradeH cfgHeaderAdd w flv (some 0) .rtsp spoof).2 = .upgraded { path := "/a/b".toList, user := "root".toList } ∧
+    judgeWs Witness.env sw flv (some 0) (wsUpgradeH cfgHeaderAdd w flv (some 0) .rtsp spoof).2 = .unsound ∧
+    (apiGateH cfgFixed w .get true users (some 0) spoof).2 = .forbidden ∧
+    (httpStreamH cfgFixed w .get flv (some 0) spoof).2 = .forbidden := by
   decide
 
 end
